@@ -23,6 +23,11 @@ import CelloGen.Hdr
 
 namespace Cello.Hdr
 
+/-- first entry with this key -/
+def assoc {β : Type} (k : Nat) : List (Nat × β) → Option β
+  | [] => none
+  | p :: r => if p.1 = k then some p.2 else assoc k r
+
 /-! ## configuration read from the source -/
 
 /-- the allocation-class guard of one reallocating function of String.c / Tuple.c -/
@@ -161,10 +166,10 @@ def Config.Sound (cfg : Config) : Bool :=
   cfg.bTableK == cfg.cData && cfg.bTableV == cfg.cData && cfg.bTreeK == cfg.cData && cfg.bTreeV == cfg.cData &&
   cfg.writesType && cfg.writesAlloc && cfg.writesMagic &&
   -- dealloc refuses the three non-heap classes with ResourceError before it fills or frees, and does not refuse heap
-  cfg.deallocRefused.lookup cfg.cStatic == some "ResourceError" &&
-  cfg.deallocRefused.lookup cfg.cStack == some "ResourceError" &&
-  cfg.deallocRefused.lookup cfg.cData == some "ResourceError" &&
-  cfg.deallocRefused.lookup cfg.cHeap == none &&
+  assoc cfg.cStatic cfg.deallocRefused == some "ResourceError" &&
+  assoc cfg.cStack cfg.deallocRefused == some "ResourceError" &&
+  assoc cfg.cData cfg.deallocRefused == some "ResourceError" &&
+  (assoc cfg.cHeap cfg.deallocRefused).isNone &&
   -- the String / Tuple guards
   cfg.sDel.Protects cfg && cfg.sAssign.Protects cfg && cfg.sConcat.Protects cfg && cfg.sResize.Protects cfg &&
   cfg.tDel.Protects cfg && cfg.tAssign.Protects cfg && cfg.tPush.Protects cfg && cfg.tPop.Protects cfg &&
@@ -264,7 +269,7 @@ deriving Repr, Inhabited
 
 def St.init : St := { objs := [], reg := [], freed := [], rtSizes := [] }
 
-def St.get (s : St) (id : Nat) : Option Obj := s.objs.lookup id
+def St.get (s : St) (id : Nat) : Option Obj := assoc id s.objs
 
 def St.isLive (s : St) (id : Nat) : Bool :=
   match s.get id with
@@ -282,7 +287,7 @@ def St.usableArg (s : St) (id : Nat) : Bool :=
   | none => false
 
 def St.sizeOf (s : St) : Ty → Nat
-  | .rt k => (s.rtSizes.lookup k).getD 0
+  | .rt k => (assoc k s.rtSizes).getD 0
   | t => builtinSize t
 
 def round8 (n : Nat) : Nat := ((n + 7) / 8) * 8
@@ -353,6 +358,13 @@ def mapEntry (cfg : Config) (s : St) (k : MapKind) (kty vty : Ty) (key val : Sca
   | .table => (mkElem cfg s cfg.bTableK cfg.roundTable kty key, mkElem cfg s cfg.bTableV cfg.roundTable vty val)
   | .tree => (mkElem cfg s cfg.bTreeK cfg.roundTree kty key, mkElem cfg s cfg.bTreeV cfg.roundTree vty val)
 
+/-- offset of the value's header inside a Tree node: three links, the key's header, the key's slot
+    (`Tree_Alloc`: `3 * sizeof(var) + sizeof(struct Header) + m->ksize`) -/
+def treeValHeaderOffset (cfg : Config) (ksize : Nat) : Nat := 3 * 8 + 24 + slotCap cfg.roundTree ksize
+
+/-- `struct Header` holds pointers: it must sit at a multiple of 8 -/
+def treeValHeaderAligned (cfg : Config) (ksize : Nat) : Bool := treeValHeaderOffset cfg ksize % 8 == 0
+
 /-! ## values -/
 
 def Scalar.fits (v : Scalar) (t : Ty) : Bool :=
@@ -387,7 +399,7 @@ def St.srcScalar (cfg : Config) (s : St) (id : Nat) : Option (Ty × Scalar) :=
 
 /-- `dealloc` of a whole object (the type has no `dealloc` of its own) -/
 def dealloc (cfg : Config) (s : St) (id : Nat) (o : Obj) : St × Outcome :=
-  match cfg.deallocRefused.lookup o.hdr.alloc with
+  match assoc o.hdr.alloc cfg.deallocRefused with
   | some e =>
     -- throw(e, "... %$ ...", self): the argument list `tuple(self)` ends at the first `Terminal`, so when `self` is the
     -- `Terminal` object itself the message has no argument and FormatError is raised instead
@@ -396,7 +408,7 @@ def dealloc (cfg : Config) (s : St) (id : Nat) (o : Obj) : St × Outcome :=
 
 /-- `dealloc` of an embedded object; the message of the exception shows the object (`%$`) -/
 def deallocElem (cfg : Config) (e : Elem) : Outcome :=
-  match cfg.deallocRefused.lookup e.hdr.alloc with
+  match assoc e.hdr.alloc cfg.deallocRefused with
   | some exc => if e.val = .strFreed then .ub else .raised exc
   | none => .ub
 
@@ -747,8 +759,10 @@ def Body.elemAt (b : Body) (t : Target) : Option Elem :=
 def Body.setElemAt (b : Body) (t : Target) (e : Elem) : Body :=
   match b, t with
   | .seq k ety es, .elem _ i => .seq k ety (es.set i e)
-  | .map k kty vty ents, .key _ i => .map k kty vty (ents.modify i (fun p => (e, p.2)))
-  | .map k kty vty ents, .val _ i => .map k kty vty (ents.modify i (fun p => (p.1, e)))
+  | .map k kty vty ents, .key _ i =>
+    (match ents[i]? with | some p => .map k kty vty (ents.set i (e, p.2)) | none => .map k kty vty ents)
+  | .map k kty vty ents, .val _ i =>
+    (match ents[i]? with | some p => .map k kty vty (ents.set i (p.1, e)) | none => .map k kty vty ents)
   | b, _ => b
 
 /-- the embedded object a target designates, in a live container -/
@@ -853,6 +867,7 @@ def St.sweepVictims (s : St) (victims : List Nat) : List Nat :=
   (s.reg.filter (fun p => victims.contains p.1 && !p.2 && !s.isTypeInUse p.1 && !s.referenced p.1)).map (·.1)
 
 def sweepOne (cfg : Config) (s : St) (id : Nat) : St :=
+  if !s.isReg id then s else      -- GC_Sweep walks the registry: nothing else can be released by it
   match s.get id with
   | some o =>
     let s1 := s.unreg id
@@ -915,7 +930,7 @@ def allFit (vals : List Scalar) (t : Ty) : Bool := vals.all (fun v => v.fits t)
 
 /-- does the run-time type exist (its Type object is live)? -/
 def St.rtLive (s : St) (k : Nat) : Bool :=
-  s.objs.any (fun p => p.2.live && p.2.body == .tyobj (.rt k) ((s.rtSizes.lookup k).getD 0))
+  s.objs.any (fun p => p.2.live && p.2.body == .tyobj (.rt k) ((assoc k s.rtSizes).getD 0))
 
 def St.tyUsable (s : St) : Ty → Bool
   | .rt k => s.rtLive k
@@ -956,7 +971,7 @@ def buildBody (cfg : Config) (s : St) (r : Route) (i : Init) : Option Body :=
   | .rtType k size =>
     (match r with
      | .new | .newRaw | .newRoot =>
-       if (s.rtSizes.lookup k).isNone && k < 16 && size ≥ 8 && size ≤ 256 then some (.tyobj (.rt k) size) else none
+       if (assoc k s.rtSizes).isNone && k < 16 && size ≥ 8 && size ≤ 256 then some (.tyobj (.rt k) size) else none
      | _ => none)
   | .rtObj k w =>
     if r.isHeap && s.rtLive k then
@@ -981,35 +996,84 @@ def knownStatics : List String :=
    "Filter", "Map", "Terminal", "_", "Function", "File", "Mutex", "Thread", "Exception", "GC",
    "TypeError", "ValueError", "ResourceError", "KeyError", "IndexOutOfBoundsError"]
 
+def stepMake (cfg : Config) (s : St) (id : Nat) (r : Route) (i : Init) : St × Obs :=
+  if (s.get id).isSome then (s, .bad) else
+  (match buildBody cfg s r i with
+   | none => (s, .skip "unsupported")
+   | some b =>
+     let s1 := s.birth cfg id r i.ty b
+     let s2 := match i with
+       | .rtType k size => { s1 with rtSizes := s1.rtSizes ++ [(k, size)] }
+       | _ => s1
+     (s2, .made id))
+
+def stepStatic (cfg : Config) (s : St) (id : Nat) (name : String) : St × Obs :=
+  if (s.get id).isSome || !knownStatics.contains name then (s, .bad) else
+  if s.objs.any (fun p => p.2.body == .tyobj (Ty.ofName name) 0 && p.2.hdr == staticHeader cfg) then (s, .skip "duplicate") else
+  ({ s with objs := s.objs ++ [(id, { hdr := staticHeader cfg, cap := 0, body := .tyobj (Ty.ofName name) 0, live := true })] },
+   .made id)
+
+def stepCopy (cfg : Config) (s : St) (id : Nat) (src : Nat) : St × Obs :=
+  if (s.get id).isSome then (s, .bad) else
+  (match s.get src with
+   | some o =>
+     if !o.live then (s, .skip "dead") else
+     (match o.body with
+      | .tyobj _ _ => (s, .did "copy" (.raised "ValueError") (.obj src))     -- Type_Copy
+      | _ =>
+        match copyBody cfg s o with
+        | some (t, b) => (s.birth cfg id .new t b, .made id)
+        | none => (s, .skip "unsupported"))
+   | none => (s, .bad))
+
+def stepFree (cfg : Config) (s : St) (f : FreeOp) (t : Target) : St × Obs :=
+  (match s.get t.id with
+   | none => (s, .bad)
+   | some o =>
+     match t with
+     | .obj id =>
+       if !o.live then
+         -- a second `del` of a released object only looks the pointer up in the registry
+         (if f.viaCollector && cfg.delViaCollector && !s.isReg id then (s, .did f.name .ok t) else (s, .skip "dead"))
+       else if !f.viaCollector && s.isReg id then (s, .skip "misuse")          -- raw release of a collector-managed object
+       else if f == .destruct && o.hdr.alloc == cfg.cHeap then (s, .skip "misuse")
+       else if s.isTypeInUse id then (s, .skip "misuse")
+       else if o.hdr.alloc == cfg.cHeap && s.referenced id then (s, .skip "referenced")
+       else
+         let (s1, out) := freeObj cfg s f id o
+         (s1, .did f.name out t)
+     | _ =>
+       if !o.live then (s, .skip "dead") else
+       match s.elemOf t with
+       | none => (s, .bad)
+       | some e =>
+         let (e1, out) := freeElem cfg f e
+         (s.updBody t.id (fun b => b.setElemAt t e1), .did f.name out t))
+
+def stepInplace (cfg : Config) (s : St) (ip : InPlace) (t : Target) : St × Obs :=
+  (match s.get t.id with
+   | none => (s, .bad)
+   | some o =>
+     if !o.live then (s, .skip "dead") else
+     if ip.srcs.contains t.id then (s, .skip "self") else
+     match t with
+     | .obj id =>
+       (match inPlaceObj cfg s o ip with
+        | none => (s, .skip "unsupported")
+        | some (b, out) => (s.updBody id (fun _ => b), .did ip.name out t))
+     | _ =>
+       match s.elemOf t with
+       | none => (s, .bad)
+       | some e =>
+         match inPlaceElem cfg s e ip with
+         | none => (s, .skip "unsupported")
+         | some (e1, out) => (s.updBody t.id (fun b => b.setElemAt t e1), .did ip.name out t))
+
 def step (cfg : Config) (s : St) (op : Op) : St × Obs :=
   match op with
-  | .make id r i =>
-    if (s.get id).isSome then (s, .bad) else
-    (match buildBody cfg s r i with
-     | none => (s, .skip "unsupported")
-     | some b =>
-       let s1 := s.birth cfg id r i.ty b
-       let s2 := match i with
-         | .rtType k size => { s1 with rtSizes := s1.rtSizes ++ [(k, size)] }
-         | _ => s1
-       (s2, .made id))
-  | .static id name =>
-    if (s.get id).isSome || !knownStatics.contains name then (s, .bad) else
-    if s.objs.any (fun p => p.2.body == .tyobj (Ty.ofName name) 0 && p.2.hdr == staticHeader cfg) then (s, .skip "duplicate") else
-    ({ s with objs := s.objs ++ [(id, { hdr := staticHeader cfg, cap := 0, body := .tyobj (Ty.ofName name) 0, live := true })] },
-     .made id)
-  | .copy id src =>
-    if (s.get id).isSome then (s, .bad) else
-    (match s.get src with
-     | some o =>
-       if !o.live then (s, .skip "dead") else
-       (match o.body with
-        | .tyobj _ _ => (s, .did "copy" (.raised "ValueError") (.obj src))     -- Type_Copy
-        | _ =>
-          match copyBody cfg s o with
-          | some (t, b) => (s.birth cfg id .new t b, .made id)
-          | none => (s, .skip "unsupported"))
-     | none => (s, .bad))
+  | .make id r i => stepMake cfg s id r i
+  | .static id name => stepStatic cfg s id name
+  | .copy id src => stepCopy cfg s id src
   | .obs t =>
     (match s.get t.id with
      | some o => if !o.live then (s, .skip "dead") else
@@ -1017,47 +1081,8 @@ def step (cfg : Config) (s : St) (op : Op) : St × Obs :=
          | .obj _ => (s, .seen t)
          | _ => if (s.elemOf t).isSome then (s, .seen t) else (s, .bad))
      | none => (s, .bad))
-  | .free f t =>
-    (match s.get t.id with
-     | none => (s, .bad)
-     | some o =>
-       match t with
-       | .obj id =>
-         if !o.live then
-           -- a second `del` of a released object only looks the pointer up in the registry
-           (if f.viaCollector && cfg.delViaCollector && !s.isReg id then (s, .did f.name .ok t) else (s, .skip "dead"))
-         else if !f.viaCollector && s.isReg id then (s, .skip "misuse")          -- raw release of a collector-managed object
-         else if f == .destruct && o.hdr.alloc == cfg.cHeap then (s, .skip "misuse")
-         else if s.isTypeInUse id then (s, .skip "misuse")
-         else if o.hdr.alloc == cfg.cHeap && s.referenced id then (s, .skip "referenced")
-         else
-           let (s1, out) := freeObj cfg s f id o
-           (s1, .did f.name out t)
-       | _ =>
-         if !o.live then (s, .skip "dead") else
-         match s.elemOf t with
-         | none => (s, .bad)
-         | some e =>
-           let (e1, out) := freeElem cfg f e
-           (s.updBody t.id (fun b => b.setElemAt t e1), .did f.name out t))
-  | .inplace ip t =>
-    (match s.get t.id with
-     | none => (s, .bad)
-     | some o =>
-       if !o.live then (s, .skip "dead") else
-       if ip.srcs.contains t.id then (s, .skip "self") else
-       match t with
-       | .obj id =>
-         (match inPlaceObj cfg s o ip with
-          | none => (s, .skip "unsupported")
-          | some (b, out) => (s.updBody id (fun _ => b), .did ip.name out t))
-       | _ =>
-         match s.elemOf t with
-         | none => (s, .bad)
-         | some e =>
-           match inPlaceElem cfg s e ip with
-           | none => (s, .skip "unsupported")
-           | some (e1, out) => (s.updBody t.id (fun b => b.setElemAt t e1), .did ip.name out t))
+  | .free f t => stepFree cfg s f t
+  | .inplace ip t => stepInplace cfg s ip t
   | .iter id back =>
     (match s.iterate cfg id with
      | some l => (s, .items (if back then l.reverse else l))
